@@ -120,8 +120,7 @@ CLAIMED['C07'] = dict(
          'end in a result or DecodeErr within the model\'s fuel (termination + every next() guarded); a parse error sits at the first token after which no '
          'derivation can continue, or at the end of the last token ((0,0) on empty input).',
     design_ref='DESIGN.md §5 C07',
-    note=TB + ' theorems are about token lists (that the lexer emits the documented tokens is C08); the parse_triples error POSITION is checked by correspondence and a '
-         'Python token-class automaton only; the 200-level bound is CPython\'s stack: the check parses depths 1..200 in four shapes without RecursionError; '
+    note=TB + ' theorems are about token lists (that the lexer emits the documented tokens is C08); the parse_triples error position is a theorem too (Properties/C07b.v: conjunction grammar over tokens, sound/complete/deterministic, error at the first non-viable token or at the end of input; automaton twin of the harness oracle proved equal); the 200-level bound is CPython\'s stack: the check parses depths 1..200 in four shapes without RecursionError; '
          'quick = all strings <= 4 over 16 symbols, all token-type sequences <= 6, random noisy/long/Unicode/nested texts (0.62M comparisons).',
     technique='Coq proof (parser = inductive grammar = pushdown recogniser; fuel sufficiency) + bounded-exhaustive differential correspondence + extracted-recogniser oracle',
 )
@@ -214,7 +213,7 @@ CLAIMED['C10'] = dict(
          'definitions and references with alignment suffixes kept and nothing else changed; interpret(reset t) = rename_graph (interpret t) for triples, top, epidata and metadata.',
     design_ref='DESIGN.md §5 C10',
     note=TB + ' C10_iso assumes plain names (no "~", no leading quote), every node has a variable, the concept role written "/" and no constant spelled like a new name; str.format '
-         'beyond plain fields and {{ }} is outside; the naming rule (prefix + first free index depth-first) is checked by the oracle, not proved; the ASCII+Latin-1 '
+         'beyond plain fields and {{ }} is outside; the naming rule is a theorem as well (Properties/C10b.v: k-th distinct variable in depth-first order gets prefix + the LEAST free index; b, b2, b3 for {prefix}{j}); the ASCII+Latin-1 '
          'is_alpha/lower table of the extracted instance is validated against CPython on every run; quick = 60k wf trees x 8 formats.',
     technique='Coq proof (injective rendering, renaming commutes with interpret) + differential correspondence + bijection/isomorphism oracle with 2 s alarms',
 )
